@@ -39,11 +39,13 @@ type value struct {
 	why  string // for unknown: what could not be folded
 }
 
-func unknown(format string, a ...any) value { return value{k: vUnknown, why: fmt.Sprintf(format, a...)} }
-func cstr(s string) value                   { return value{k: vConst, c: constant.MakeString(s)} }
-func cint(i int64) value                    { return value{k: vConst, c: constant.MakeInt64(i)} }
-func cbool(b bool) value                    { return value{k: vConst, c: constant.MakeBool(b)} }
-func rec(m map[string]value) value          { return value{k: vRec, rec: m} }
+func unknown(format string, a ...any) value {
+	return value{k: vUnknown, why: fmt.Sprintf(format, a...)}
+}
+func cstr(s string) value          { return value{k: vConst, c: constant.MakeString(s)} }
+func cint(i int64) value           { return value{k: vConst, c: constant.MakeInt64(i)} }
+func cbool(b bool) value           { return value{k: vConst, c: constant.MakeBool(b)} }
+func rec(m map[string]value) value { return value{k: vRec, rec: m} }
 
 func (v value) String() string {
 	switch v.k {
